@@ -49,6 +49,9 @@ def posterior_enum(fp, xs):
     return joint
 
 
+LOG_MAGNITUDE: list = []      # filled by posterior_forward: per step, the accumulated magnitude of the exact log-joints (the ORACLE's, not an attribute of the detector)
+
+
 def posterior_forward(fp, xs):
     """linear-space forward recursion written from the generative model, in 60-digit decimal arithmetic with an unbounded exponent
     (so that hypotheses whose likelihood is e^-1000 are kept - they can win later):
@@ -61,14 +64,23 @@ def posterior_forward(fp, xs):
     two_pi = Decimal("6.283185307179586476925286766559005768394338798750211641949889")
     M = [Decimal(1)]
     rows = []
+    LOG_MAGNITUDE.clear()
+    acc = 0.0
+    lh = max(abs(math.log(fp["hazard"])), abs(math.log1p(-fp["hazard"]))) if 0 < fp["hazard"] < 1 else 0.0
     for t, x in enumerate(xs, 1):
         pis = []
+        big = 0.0
         for r in range(t):
             vals = xs[t - 1 - r: t - 1]
             prec = 1 / D(fp["prior_var"]) + Decimal(len(vals)) / D(fp["data_var"])
             mu = (D(fp["prior_mean"]) / D(fp["prior_var"]) + sum((D(v) for v in vals), Decimal(0)) / D(fp["data_var"])) / prec
             var = 1 / prec + D(fp["data_var"])
             pis.append((-(D(x) - mu) ** 2 / (2 * var)).exp() / (two_pi * var).sqrt())
+            big = max(big, float((D(x) - mu) ** 2 / (2 * var)) + abs(0.5 * math.log(float(two_pi * var))))
+        # magnitude of the log-joints any log-space implementation handles up to this step: the largest |log predictive density| of every step so far plus the
+        # hazard terms, accumulated (an unnormalised message carries the sum, a normalised one only the last term: the bound covers both)
+        acc += big + lh
+        LOG_MAGNITUDE.append(acc)
         new = [sum((M[r] * pis[r] * h for r in range(t)), Decimal(0))] + [M[r] * pis[r] * (1 - h) for r in range(t)]
         tot = sum(new, Decimal(0))
         M = [v / tot for v in new] if tot > 0 else new
@@ -112,6 +124,7 @@ def check(out: Outcome, p: dict, xs: list, runners: list, enum: bool = False, ca
         r.cast = cast
     d = r.det
     rows = posterior_forward(fp, xs)
+    mags = list(LOG_MAGNITUDE)
     fired = False
     tols = {0: 1e-9}
     for t, x in enumerate(xs, 1):
@@ -125,7 +138,8 @@ def check(out: Outcome, p: dict, xs: list, runners: list, enum: bool = False, ca
             break
         got = [float(v) for v in np.exp(d.log_r[t, : t + 1])]
         # log-joints of magnitude L carry an absolute rounding error of about L * 2^-52, which becomes a relative error of the probabilities
-        tol = 1e-9 + 1e-14 * float(np.max(np.abs(d.log_message[np.isfinite(d.log_message)]))) if np.any(np.isfinite(d.log_message)) else 1e-9
+        # (the magnitude is taken from the exact computation, not from an internal attribute of the detector: a normalised message must be judged as an unnormalised one is)
+        tol = 1e-9 + 1e-14 * mags[t - 1]
         # the posterior means are stored at the magnitude of the data: an absolute rounding error of about |x| * 2^-52 per update, which moves the densities by
         # (x - mu) * error / variance - at level 3e9 a few 1e-9 in the probabilities
         tol += 2e-15 * max(abs(v) for v in xs[:t]) * max(1.0, 1.0 / min(fp["data_var"], fp["prior_var"]))
